@@ -473,10 +473,10 @@ fire("c20-f7-reintroduced", "C20", ["C20.nilresult"],
 fire("c20-f3-reintroduced", "C20", ["C20.nilness"],
      (VEST, "			k.Logger(ctx).Error(\"new vesting account from vesting pool emit event error\", \"error\", eventErr.Error())", "			k.Logger(ctx).Error(\"new vesting account from vesting pool emit event error\", \"error\", err.Error())"))
 fire("c20-f20-reintroduced", "C20", ["C20.inventory"],
-     ("x/cfesignature/keeper/msg_server_store_signature.go", "	if len(msg.StorageKey) == 0 {\n		return nil, sdkerrors.Wrap(sdkerrors.ErrInvalidRequest, \"storage key cannot be empty\")\n	}\n", ""),
-     ("x/cfesignature/types/message_store_signature.go", "	if len(msg.StorageKey) == 0 {\n		return sdkerrors.Wrap(sdkerrors.ErrInvalidRequest, \"storage key cannot be empty\")\n	}\n", ""))
-silent("c20-handler-guard-only-in-validatebasic", "C20",
      ("x/cfesignature/keeper/msg_server_store_signature.go", "	if len(msg.StorageKey) == 0 {\n		return nil, sdkerrors.Wrap(sdkerrors.ErrInvalidRequest, \"storage key cannot be empty\")\n	}\n", ""))
+silent("c20-key-guard-moved-to-validatebasic", "C20",
+     ("x/cfesignature/keeper/msg_server_store_signature.go", "	if len(msg.StorageKey) == 0 {\n		return nil, sdkerrors.Wrap(sdkerrors.ErrInvalidRequest, \"storage key cannot be empty\")\n	}\n", ""),
+     ("x/cfesignature/types/message_store_signature.go", "		return sdkerrors.Wrapf(sdkerrors.ErrInvalidAddress, \"invalid creator address (%s)\", err)\n	}\n	return nil", "		return sdkerrors.Wrapf(sdkerrors.ErrInvalidAddress, \"invalid creator address (%s)\", err)\n	}\n	if len(msg.StorageKey) == 0 {\n		return sdkerrors.Wrap(sdkerrors.ErrInvalidRequest, \"storage key cannot be empty\")\n	}\n	return nil"))
 fire("c20-f5-reintroduced", "C20", ["C20.inventory"],
      ("x/cfevesting/types/message_move_available_vesting_by_denoms.go", "		if err := sdk.ValidateDenom(denom); err != nil {\n			return nil, nil, errors.Wrapf(ErrParam, \"move available vesting by denoms - invalid denomination at position %d: %s\", i, err)\n		}\n", ""))
 fire("c20-signers-unvalidated", "C20", ["C20.signers"],
@@ -487,3 +487,41 @@ fire("c20-type-assert-unchecked", "C20", ["C20.inventory"],
      ("x/cfevesting/keeper/grpc_query_vestings_summary.go", "		if continuousVestingAccount, ok := vestingAccount.(*vestingtypes.ContinuousVestingAccount); ok {", "		ok := vestingAccount != nil\n		if continuousVestingAccount := vestingAccount.(*vestingtypes.ContinuousVestingAccount); ok {"))
 silent("c20-nil-check-switch-form", "C20",
        ("x/cfedistributor/types/message_update_params.go", "	if msg.SubDistributor == nil {\n		return errors.Wrapf(govtypes.ErrInvalidProposalContent, \"validation error: sub distributor cannot be nil\")\n	}\n", "	switch {\n	case msg.SubDistributor == nil:\n		return errors.Wrapf(govtypes.ErrInvalidProposalContent, \"validation error: sub distributor cannot be nil\")\n	}\n"))
+
+# ---------------- C02 ----------------
+fire("c02-per-block-delta", "C02", ["C02.fromscratch"],
+     (MINT, "	amount := expectedAmountToMint.TruncateInt().Sub(minterState.AmountMinted)", "	amount := expectedAmountToMint.TruncateInt().Sub(minterState.AmountMinted)\n	if ctx.BlockTime().Sub(minterState.LastMintBlockTime) > time.Hour {\n		amount = amount.QuoRaw(2)\n	}"))
+fire("c02-round-up", "C02", ["C02.fromscratch"],
+     (MINT, "	amount := expectedAmountToMint.TruncateInt().Sub(minterState.AmountMinted)", "	amount := expectedAmountToMint.Ceil().TruncateInt().Sub(minterState.AmountMinted)"))
+fire("c02-ignore-remainder", "C02", ["C02.fromscratch"],
+     (MINT, "	expectedAmountToMint = expectedAmountToMint.Add(minterState.RemainderFromPreviousMinter)\n", ""))
+fire("c02-nonneg-deleted", "C02", ["C02.nonneg"],
+     (MINT, "	if amount.IsNegative() {\n		k.Logger(ctx).Error(\"mint negative amount\"", "	if amount.IsNil() {\n		k.Logger(ctx).Error(\"mint negative amount\""))
+silent("c02-nonneg-wrapped", "C02",
+       (MINT, "	if amount.IsNegative() {\n		k.Logger(ctx).Error(\"mint negative amount\"", "	if !(amount.IsZero() || amount.IsPositive()) {\n		k.Logger(ctx).Error(\"mint negative amount\""))
+fire("c02-handover-flipped", "C02", ["C02.boundaries"],
+     (MINT, "	if currentMinter.EndTime == nil || ctx.BlockTime().Before(*currentMinter.EndTime) {", "	if currentMinter.EndTime == nil || ctx.BlockTime().After(*currentMinter.EndTime) {"))
+fire("c02-start-guard-dropped", "C02", ["C02.boundaries"],
+     (MINT, "	if lastBlockTime.Before(params.StartTime) {", "	if lastBlockTime.IsZero() {"))
+fire("c02-linear-after-before", "C02", ["C02.boundaries"],
+     (MINTYPES, "	if blockTime.After(*endTime) {\n		return sdk.NewDecFromInt(m.Amount)\n	}", "	if blockTime.Before(*endTime) {\n		return sdk.NewDecFromInt(m.Amount)\n	}"))
+fire("c02-exp-not-capped", "C02", ["C02.boundaries"],
+     (MINTYPES, "	if endTime != nil && blockTime.After(*endTime) {\n		now = *endTime\n	}\n	passedTime := int64(now.Sub(startTime))", "	if endTime != nil && blockTime.Before(*endTime) {\n		now = *endTime\n	}\n	passedTime := int64(now.Sub(startTime))"))
+silent("c02-handover-not-before-form", "C02",
+       (MINT, "	if currentMinter.EndTime == nil || ctx.BlockTime().Before(*currentMinter.EndTime) {", "	if currentMinter.EndTime == nil || !(ctx.BlockTime().After(*currentMinter.EndTime) || ctx.BlockTime().Equal(*currentMinter.EndTime)) {"))
+silent("c02-handover-at-not-after", "C02",
+       (MINT, "	if currentMinter.EndTime == nil || ctx.BlockTime().Before(*currentMinter.EndTime) {", "	if currentMinter.EndTime == nil || !ctx.BlockTime().After(*currentMinter.EndTime) {"))
+fire("c02-carry-remainder-zero", "C02", ["C02.carry"],
+     (MINT, "			RemainderFromPreviousMinter: remainder,", "			RemainderFromPreviousMinter: sdk.ZeroDec(),"))
+fire("c02-carry-same-sequence", "C02", ["C02.carry"],
+     (MINT, "			SequenceId:                  minterState.SequenceId + 1,", "			SequenceId:                  minterState.SequenceId,"))
+fire("c02-carry-result-drops-amount", "C02", ["C02.carry"],
+     (MINT, "		result = minted.Add(amount)", "		result = minted"))
+fire("c02-history-omitted", "C02", ["C02.boundaries"],
+     (MINT, "		k.SetMinterStateHistory(ctx, minterState)\n", ""))
+fire("c02-start-always-params", "C02", ["C02.start"],
+     (MINT, "	if previousMinter == nil {\n		startTime = params.StartTime\n	} else {\n		startTime = *previousMinter.EndTime\n	}\n\n	expectedAmountToMint", "	if previousMinter != nil {\n		startTime = params.StartTime\n	} else {\n		startTime = params.StartTime\n	}\n\n	expectedAmountToMint"))
+fire("c02-inflation-other-start", "C02", ["C02.start"],
+     ("x/cfeminter/keeper/keeper.go", "	if previousMinter == nil {\n		startTime = params.StartTime\n	} else {\n		startTime = *previousMinter.EndTime\n	}", "	if previousMinter == nil {\n		startTime = params.StartTime\n	} else {\n		startTime = *currentMinter.EndTime\n	}"))
+silent("c02-remainder-recomputed", "C02",
+       (MINT, "	remainder := expectedAmountToMint.Sub(expectedAmountToMint.TruncateDec())", "	truncated := expectedAmountToMint.TruncateDec()\n	remainder := expectedAmountToMint.Sub(truncated)"))
